@@ -27,6 +27,14 @@ CHECKS = {
             "one-shot keys; edge-cover replay binds L1 to the code; random schedules and a 20-fold stacked burst are recorded "
             "from the code and validated by TLC against P_C06.",
             "5 C06", TECH, BOUNDS + "; one-shot stack bounded to 3 in the exhaustive instances"),
+    "C17": ("model_checking",
+            "TLC checks L1 against the tap-dance monitor P_C17 (group-wise accounting of every typed tap: no tap swallowed, no "
+            "action for taps not typed; in the sharp zone the exact resolution tick and the exact action for the number of taps "
+            "counted, window restart, interruption by another key, list exhaustion, action held until the final release; eager "
+            "form: each tap performs its own action at once) for every schedule within the instance bounds; edge-cover replay "
+            "binds L1 to the code; model-level counterexamples and random schedules are recorded from the code and validated by "
+            "TLC against P_C17.",
+            "5 C17", TECH, BOUNDS + "; histories with more than list-length+1 unconsumed taps are not expanded"),
 }
 
 NOT_APPLICABLE = {}
